@@ -29,16 +29,20 @@ where
 
         // No overlay map: truncated values ride in `pushed` and `stored_len`
         // is clamped to where disk still agrees with the rolled-back state.
-        let (stored_len, pushed) = if change.truncated_values.is_empty() {
-            (change.prev_stored_len, change.prev_pushed)
-        } else {
-            let agree_at = change.truncated_start.min(self.real_stored_len());
-            let mut buf = change.truncated_values;
-            buf.extend(change.prev_pushed);
-            (agree_at, buf)
-        };
-        self.base
-            .apply_rollback(change.prev_stamp, stored_len, pushed);
+        // The state being left is disk[..stored_len] ++ pushed; the state being
+        // restored keeps its first `truncated_start` elements, part of which may
+        // already live in `pushed` after an earlier rollback step.
+        let cur_stored = self.stored_len();
+        let agree_at = change.truncated_start.min(cur_stored);
+        let mut buf = Vec::new();
+        if change.truncated_start > cur_stored {
+            let cur_pushed = self.base.pushed();
+            let keep = (change.truncated_start - cur_stored).min(cur_pushed.len());
+            buf.extend_from_slice(&cur_pushed[..keep]);
+        }
+        buf.extend(change.truncated_values);
+        buf.extend(change.prev_pushed);
+        self.base.apply_rollback(change.prev_stamp, agree_at, buf);
 
         Ok(())
     }
